@@ -1186,6 +1186,8 @@ static int auditMain(int argc, char **argv)
                 {
                     std::vector<El> v;
                     int n = 2 + rng.below(live == 0 ? 14 : 5);
+                    if (prm->isDefault && live == 0)
+                        n = 55 + rng.below(30);  // past the default leaf size at once: add(vector) splits
                     for (int j = 0; j < n; ++j)
                         v.push_back(El{pt(), nextUid++});
                     nn.add(v);
